@@ -1,0 +1,265 @@
+//go:build verif
+
+package main
+
+import (
+	"fmt"
+	"mltwist/internal/deps"
+	"mltwist/internal/parser"
+	"mltwist/pkg/expr"
+	"mltwist/pkg/model"
+	"strings"
+)
+
+// Dependency analysis and move bookkeeping (C05, C06, C07).
+//
+//	deps <entry> <n> (<type> <addr> <len> <neffects> EF...)... <k> op1 ... opk
+//	    deps.NewCode(entry, instructions), then one history of operations:
+//	      mv <block> <from> <to>   Code.Index(block).Move(from, to)  "ok" / "err:<class>"
+//	      bmv <from> <to>          Code.Move(from, to)               "ok" / "err:<class>"
+//	      lb <block> <i>           Code.Index(block).LowerBound(i)   "<n>"
+//	      ub <block> <i>           Code.Index(block).UpperBound(i)   "<n>"
+//	      addr <a>                 Code.Address(a), Block.Address(a) "none" / "<block begin> none" /
+//	                                                                 "<block begin> <orig addr>"
+//	      edges <block>            dependency edges of the block     "<k> (<orig from> <orig to>)..."
+//	    A panicking operation answers "PANIC" and the history goes on.
+//	    Result: "err:<stage>:<class>" if NewCode fails, otherwise
+//	      "<all edges> ; <state> | <answer1> ; <state> | ... | <answerk> ; <state> | <all edges>"
+//	    <all edges> = "<nblocks> (<k> (<from> <to>)...)..." in the current block order,
+//	    <state> = "<nblocks> (B <idx> <begin> <end> <n> (<orig> <curr> <len> <blockIdx> <lb> <ub>
+//	              <block begin found by Code.Address(curr) | -> <orig found by Block.Address(curr) | ->)...)..."
+//	depsx ...                   the same as deps (judged by another oracle)
+//	depsadj <entry> <n> (<type> <addr> <len> <neffects> EF...)...
+//	    for every block and every adjacent pair (i, i+1) of it: a fresh NewCode and
+//	    Code.Index(block).Move(i, i+1):  "<nblocks> (<n-1> ok|err:<class> ...)..."
+//
+// Instruction bytes are zero bytes of the given length, Details is a stub.
+
+func (t *tokens) depsInstruction() parser.Instruction {
+	typ := t.uint()
+	addr := t.uint()
+	l := t.uint()
+	if l > maxInsLen {
+		panic(parseError("instruction too long"))
+	}
+	n := t.int()
+	if n < 0 {
+		panic(parseError("bad effect count"))
+	}
+	var effects []expr.Effect
+	for i := 0; i < n; i++ {
+		effects = append(effects, t.effect())
+	}
+	return parser.Instruction{
+		Type:    model.Type(typ),
+		Addr:    model.Addr(addr),
+		Bytes:   make([]byte, l),
+		Effects: effects,
+		Details: stubDetails{},
+	}
+}
+
+func (t *tokens) depsProgram() (model.Addr, []parser.Instruction) {
+	entry := t.uint()
+	n := t.int()
+	if n < 0 {
+		panic(parseError("bad instruction count"))
+	}
+	var seq []parser.Instruction
+	for i := 0; i < n; i++ {
+		seq = append(seq, t.depsInstruction())
+	}
+	return model.Addr(entry), seq
+}
+
+// depsMoveErr maps the error of Block.Move / Code.Move to a small enum.
+func depsMoveErr(err error) string {
+	if err == nil {
+		return "ok"
+	}
+	s := err.Error()
+	name := "x"
+	switch {
+	case strings.Contains(s, "\"from\""):
+		name = "from"
+	case strings.Contains(s, "\"to\""):
+		name = "to"
+	}
+	var n int
+	switch {
+	case strings.Contains(s, "negative value of"):
+		return "err:neg:" + name
+	case strings.Contains(s, "is above limit"):
+		return "err:above:" + name
+	case strings.Contains(s, "upper bound for move is: "):
+		fmt.Sscanf(s[strings.Index(s, "upper bound for move is: ")+len("upper bound for move is: "):], "%d", &n)
+		return fmt.Sprintf("err:upper:%d", n)
+	case strings.Contains(s, "lower bound for move is: "):
+		fmt.Sscanf(s[strings.Index(s, "lower bound for move is: ")+len("lower bound for move is: "):], "%d", &n)
+		return fmt.Sprintf("err:lower:%d", n)
+	}
+	return "err:other"
+}
+
+func depsEdges(b deps.Block) string {
+	fwd, back := deps.VerifEdges(b)
+	var sb strings.Builder
+	fmt.Fprintf(&sb, "%d", len(fwd))
+	for _, e := range fwd {
+		fmt.Fprintf(&sb, " %d %d", uint64(e[0]), uint64(e[1]))
+	}
+	same := len(fwd) == len(back)
+	for i := 0; same && i < len(fwd); i++ {
+		same = fwd[i] == back[i]
+	}
+	if !same {
+		sb.WriteString(" !asym")
+	}
+	return sb.String()
+}
+
+func depsAllEdges(code *deps.Code) (res string) {
+	defer func() {
+		if r := recover(); r != nil {
+			res = "PANIC"
+		}
+	}()
+	var sb strings.Builder
+	blocks := code.Blocks()
+	fmt.Fprintf(&sb, "%d", len(blocks))
+	for _, b := range blocks {
+		sb.WriteByte(' ')
+		sb.WriteString(depsEdges(b))
+	}
+	return sb.String()
+}
+
+func depsState(code *deps.Code) (res string) {
+	defer func() {
+		if r := recover(); r != nil {
+			res = "PANIC"
+		}
+	}()
+	var sb strings.Builder
+	blocks := code.Blocks()
+	fmt.Fprintf(&sb, "%d", len(blocks))
+	for _, b := range blocks {
+		inss := b.Instructions()
+		fmt.Fprintf(&sb, " B %d %d %d %d", b.Idx(), uint64(b.Begin()), uint64(b.End()), len(inss))
+		for i, ins := range inss {
+			fmt.Fprintf(&sb, " %d %d %d %d %d %d", uint64(ins.OrigAddr()), uint64(ins.Begin()),
+				uint64(ins.Len()), ins.Idx(), b.LowerBound(i), b.UpperBound(i))
+			fb, ok := code.Address(ins.Begin())
+			if !ok {
+				sb.WriteString(" - -")
+				continue
+			}
+			fmt.Fprintf(&sb, " %d", uint64(fb.Begin()))
+			fi, ok := fb.Address(ins.Begin())
+			if !ok {
+				sb.WriteString(" -")
+				continue
+			}
+			fmt.Fprintf(&sb, " %d", uint64(fi.OrigAddr()))
+		}
+	}
+	return sb.String()
+}
+
+func depsOp(code *deps.Code, t *tokens) (res string) {
+	defer func() {
+		if r := recover(); r != nil {
+			if pe, ok := r.(parseError); ok {
+				panic(pe)
+			}
+			res = "PANIC"
+		}
+	}()
+
+	switch op := t.next(); op {
+	case "mv":
+		bi, from, to := t.int(), t.int(), t.int()
+		return depsMoveErr(code.Index(bi).Move(from, to))
+	case "bmv":
+		from, to := t.int(), t.int()
+		return depsMoveErr(code.Move(from, to))
+	case "lb":
+		bi, i := t.int(), t.int()
+		return fmt.Sprintf("%d", code.Index(bi).LowerBound(i))
+	case "ub":
+		bi, i := t.int(), t.int()
+		return fmt.Sprintf("%d", code.Index(bi).UpperBound(i))
+	case "addr":
+		a := model.Addr(t.uint())
+		b, ok := code.Address(a)
+		if !ok {
+			return "none"
+		}
+		ins, ok := b.Address(a)
+		if !ok {
+			return fmt.Sprintf("%d none", uint64(b.Begin()))
+		}
+		return fmt.Sprintf("%d %d", uint64(b.Begin()), uint64(ins.OrigAddr()))
+	case "edges":
+		bi := t.int()
+		return depsEdges(code.Index(bi))
+	default:
+		panic(parseError("bad deps op " + op))
+	}
+}
+
+func init() {
+	history := func(t *tokens) string {
+		entry, seq := t.depsProgram()
+		k := t.int()
+		if k < 0 {
+			panic(parseError("bad op count"))
+		}
+		code, err := deps.NewCode(entry, seq)
+		if err != nil {
+			// the operations are not executed
+			t.rest()
+			return bbErrClass(err)
+		}
+		parts := []string{depsAllEdges(code) + " ; " + depsState(code)}
+		for i := 0; i < k; i++ {
+			a := depsOp(code, t)
+			parts = append(parts, a+" ; "+depsState(code))
+		}
+		parts = append(parts, depsAllEdges(code))
+		return strings.Join(parts, " | ")
+	}
+	// the same operation under two names: the model driver judges "deps" lines
+	// with the bookkeeping oracle (C07) and "depsx" lines by execution (C05)
+	register("deps", history)
+	register("depsx", history)
+	register("depsadj", func(t *tokens) string {
+		entry, seq := t.depsProgram()
+		code, err := deps.NewCode(entry, seq)
+		if err != nil {
+			return bbErrClass(err)
+		}
+		var sb strings.Builder
+		nb := code.Len()
+		fmt.Fprintf(&sb, "%d", nb)
+		for bi := 0; bi < nb; bi++ {
+			n := code.Index(bi).Num()
+			fmt.Fprintf(&sb, " %d", n-1)
+			for i := 0; i+1 < n; i++ {
+				fresh, err := deps.NewCode(entry, seq)
+				if err != nil {
+					panic("NewCode is not deterministic")
+				}
+				func() {
+					defer func() {
+						if r := recover(); r != nil {
+							sb.WriteString(" PANIC")
+						}
+					}()
+					sb.WriteString(" " + depsMoveErr(fresh.Index(bi).Move(i, i+1)))
+				}()
+			}
+		}
+		return sb.String()
+	})
+}
